@@ -70,6 +70,7 @@ class Sched:
         self.queues = {}
         self.nproc = 0
         self.failed = None          # Deadlock / StepCap raised in main
+        self.draining = False
         self.join_timeouts = 0
         self.time_in_join = 0.0
         self.stats = {'switches': 0, 'transfers': 0, 'clock_jumps': 0, 'line_yields': 0}
@@ -100,6 +101,11 @@ class Sched:
         try:
             return fn()
         finally:
+            if self.failed is None:
+                try:
+                    self.drain()
+                except (Deadlock, StepCap):
+                    pass
             t.done = True
 
     def spawn(self, name, proc, fn, args, kwargs):
@@ -230,6 +236,19 @@ class Sched:
             except StepCap as e:
                 self._fail(e, me)
                 return
+            if ch is None and self.draining:
+                # quiescence after the main task has finished its work: hand the baton back to main
+                main = self.tasks[0]
+                main.blocked = None
+                self.current = main
+                self.draining = False
+                if me is main:
+                    return
+                main.sem.release()
+                if not finished:
+                    me.sem.acquire()
+                    raise _Abort()
+                return
             if ch is None:
                 self._fail(Deadlock('no runnable task, no pending transfer, no timer: %s' % self.describe_blocked()), me)
                 return
@@ -291,6 +310,18 @@ class Sched:
                 return True
             if deadline is not None and self.now >= deadline:
                 return False
+
+    def drain(self):
+        """Called by the main task once its own work is over: let every other task run until nothing can make
+        progress any more (all done, or blocked with no timer pending).  What is still alive then is leaked."""
+        me = self.tasks[0]
+        self.current = me
+        self.draining = True
+        me.done = False
+        me.blocked = (lambda: False, None, 'drain')
+        self._dispatch(me)
+        me.blocked = None
+        self.draining = False
 
     def sleep(self, d):
         if d <= 0:
